@@ -247,6 +247,14 @@ pub fn generate(ctx: &mut Ctx) {
         ctx.case(&format!("ip-op {} {} {}", op, show_blocks(&f(&a)), show_blocks(&f(&b))));
         ctx.case(&format!("ip-text 4 {}", show_blocks(&f(&a))));
     }
+    // IPv6 text forms that std renders specially: IPv4-mapped / -compatible ranges, zero compression at either end
+    for (lo, hi) in [(0xffffu128 << 32, (0xffffu128 << 32) | 0xffff_ffff), (0xffff_0a00_0000u128, 0xffff_0aff_ffff),
+                     (0xffffu128 << 32, 0xffffu128 << 32), (0u128, 0xffff_ffffu128), (1u128, 1u128), (0x0a00_0001u128, 0x0a00_0001u128),
+                     (0xffffu128 << 32, ((0xffffu128 << 32) | 0xffff_ffff) + 5), (1u128 << 127, (1u128 << 127) | 0xffff),
+                     (0x64ff9bu128 << 96, (0x64ff9bu128 << 96) | 0xffff_ffff), (u128::MAX - 0xffff_ffff, u128::MAX)] {
+        ctx.case(&format!("ip-text 6 {}-{}", lo, hi));
+        ctx.case(&format!("ip-text 6 0-0,{}-{}", lo.max(2), hi.max(2)));
+    }
     // counts at the ends of the number space
     for a in ["0-4294967295", "0-4294967294", "1-4294967295", "0-2147483647,2147483649-4294967295", "0-0", "4294967295-4294967295"] {
         ctx.case(&format!("as-count {}", a));
